@@ -19,7 +19,7 @@ RULE = ('Data side: express with a harness validator returning every ValidResult
         'flipped, parameter byte flipped, component missing} x route validator {absent, each verdict, slow} (legacy: plus app-wide '
         'int_validator default or replaced). Oracle: call log kept by the harness validators/handlers: accepted-before-delivered, '
         'verdict mapping, ValidationFailure carries the packet and verdict, late validator => timeout (v2), plain Interests never '
-        'consult a validator. The whole combination grid is enumerated (exhaustive) and additionally sampled in mixed batches on '
+        'consult a validator; result awaited 30 ms after express(); a refused duplicate attach with a permissive validator changes nothing. The whole combination grid is enumerated (exhaustive) and additionally sampled in mixed batches on '
         'one app instance. Non-trivial = verdict not in {PASS,FAIL}/{True,False}, corrupted digest, missing validator, or latency >= '
         'lifetime; distinct key = (front-end, side, verdict, digest state, latency class, signing).')
 ASSUMPTIONS = [
@@ -60,7 +60,7 @@ def data_item(sim, fe, it, r, idx):
             r.bad('C05/v2/data/express-without-validator-accepted', f'{h.express_error!r}')
         return ('v2', 'data', 'no-validator')
     h = sim.express(name, lifetime=LIFE, vlat=lat_s(it['lat']), verdict=_verdict_obj(fe, it['verdict']),
-                    validator='default' if supplied else 'none')
+                    validator='default' if supplied else 'none', await_after=0.03 if it.get('await_later') else 0.0)
     if h.express_error is not None:
         r.bad(f'C05/{fe}/data/express-raised/{exc_site(h.express_error)}', repr(h.express_error))
         return None
@@ -119,7 +119,7 @@ def data_item(sim, fe, it, r, idx):
         if label != want:
             r.bad(f'C05/legacy/data/default-validator/{label}/expected={want}', f'dsig={dsig}')
     nontriv = (not supplied) or it['verdict'] not in ('PASS', 'FAIL', True, False) or it['lat'] in ('life', 'life+20')
-    return (fe, 'data', repr(it['verdict']), it['lat'], dsig, it['validator']) if nontriv else ()
+    return (fe, 'data', repr(it['verdict']), it['lat'], dsig, it['validator'], bool(it.get('await_later'))) if nontriv else ()
 
 
 # ---- Interest side ------------------------------------------------------------------------------------------------
@@ -198,6 +198,16 @@ def interest_item(sim, fe, it, r, idx):
         if app_v != 'default':
             sim.app.int_validator = mk_validator('app', app_v, False)
         vl.call(sim.app.set_interest_filter, prefix, handler_legacy, route_v)
+    if it.get('refused_dup'):
+        # a second registration on the occupied prefix, with a permissive validator, is refused and must change nothing
+        try:
+            if fe == 'v2':
+                vl.call(sim.app.attach_handler, prefix, lambda *a: log.append(('old-handler', vl.now_ms())), mk_validator('old', 'PASS', False))
+            else:
+                vl.call(sim.app.set_interest_filter, prefix, lambda *a: log.append(('old-handler', vl.now_ms())), mk_validator('old', True, False))
+            r.bad(f'C05/{fe}/interest/duplicate-attach-accepted', '')
+        except ValueError:
+            pass
     wire = _build_interest(name, it)
     sim.deliver(wire, 'task')
     vl.advance(0.1)
@@ -258,7 +268,7 @@ def interest_item(sim, fe, it, r, idx):
     if verdict == 'RAISE_TIMEOUT':
         sim.vl.collect_errors()       # the validator's own exception ending its task is not this check's business
     nontriv = needs and (dg != 'correct' or rv == 'absent' or isinstance(rv, list) or rv not in ('PASS', 'FAIL', True, False))
-    return (fe, 'interest', kind, dg, repr(rv), repr(app_v), sigtype, bool(it.get('sigbad'))) if nontriv else ()
+    return (fe, 'interest', kind, dg, repr(rv), repr(app_v), sigtype, bool(it.get('sigbad')), bool(it.get('refused_dup'))) if nontriv else ()
 
 
 def pair_item(sim, fe, it, r, idx):
@@ -321,6 +331,9 @@ def _grid_items(fe):
     verdicts = V2_VERDICTS if fe == 'v2' else LEGACY_VERDICTS
     for v, lat, dsig in itertools.product(verdicts, LATS, ['none', 'digest', 'bad']):
         yield {'side': 'data', 'validator': 'supplied', 'verdict': v, 'lat': lat, 'dsig': dsig}
+    for v, lat in itertools.product(verdicts, LATS):
+        # the application expresses, does something else for 30 ms (< lifetime), and only then awaits the result
+        yield {'side': 'data', 'validator': 'supplied', 'verdict': v, 'lat': lat, 'dsig': 'digest', 'await_later': True}
     for dsig in ['none', 'digest', 'bad']:
         yield {'side': 'data', 'validator': 'none', 'verdict': None, 'lat': '0', 'dsig': dsig}
     for v1, v2 in itertools.product(verdicts, verdicts):
@@ -339,7 +352,9 @@ def _grid_items(fe):
             if kind != 'plain' and dg == 'correct' and rv in ('absent', verdicts[0]):
                 if fe == 'v2':
                     yield dict(base, reattach=True)
+                    yield dict(base, refused_dup=True)
                 else:
+                    yield dict(base, refused_dup=True)
                     for sigtype, sigbad in [(0, False), (0, True)]:
                         yield dict(base, reattach=True, sigtype=sigtype, sigbad=sigbad)
             if fe == 'v2' or kind in ('plain', 'params') or rv != 'absent':
